@@ -45,51 +45,48 @@ func coYield(L *LState) int {
 }
 
 func coResume(L *LState) int {
-	th := L.CheckThread(1)
-	if L.G.CurrentThread == th {
-		msg := "can not resume a running thread"
-		if th.wrapped {
+	return resumeThread(L, L.CheckThread(1), false)
+}
+
+// resumeThread resumes th with the values above it on L's stack. viaWrap tells
+// how this resume reports a failure: raised (a wrap function was called) or
+// returned as (false, msg) (coroutine.resume was called) - a property of the
+// call, not of the thread: the thread behind a wrap function can also be
+// resumed through coroutine.resume (coroutine.running() hands it out).
+func resumeThread(L *LState, th *LState, viaWrap bool) int {
+	refuse := func(msg string) int {
+		if viaWrap {
 			L.RaiseError(msg)
 			return 0
 		}
 		L.Push(LFalse)
 		L.Push(LString(msg))
 		return 2
+	}
+	if L.G.CurrentThread == th {
+		return refuse("can not resume a running thread")
 	}
 	for p := L; p != nil; p = p.Parent {
 		if p.Parent == th {
 			// th is waiting for the running coroutine (directly or not) to yield
-			msg := "can not resume a non-suspended thread"
-			if th.wrapped {
-				L.RaiseError(msg)
-				return 0
-			}
-			L.Push(LFalse)
-			L.Push(LString(msg))
-			return 2
+			return refuse("can not resume a non-suspended thread")
 		}
 	}
 	if th.Dead {
-		msg := "can not resume a dead thread"
-		if th.wrapped {
-			L.RaiseError(msg)
-			return 0
-		}
-		L.Push(LFalse)
-		L.Push(LString(msg))
-		return 2
+		return refuse("can not resume a dead thread")
 	}
 	if th.stack.IsEmpty() {
 		// the body ended with `return coroutine.yield(...)`: the values
 		// given to this resume are the results of that yield and so the
 		// results of the body, which thereby finishes
 		th.kill()
-		if th.wrapped {
+		if viaWrap {
 			return L.GetTop() - 1
 		}
 		L.Insert(LTrue, 2)
 		return L.GetTop() - 1
 	}
+	th.wrapped = viaWrap
 	th.Parent = L
 	L.G.CurrentThread = th
 	if !th.isStarted() {
@@ -125,8 +122,9 @@ func coStatus(L *LState) int {
 }
 
 func wrapaux(L *LState) int {
-	L.Insert(L.ToThread(UpvalueIndex(1)), 1)
-	return coResume(L)
+	th := L.ToThread(UpvalueIndex(1))
+	L.Insert(th, 1)
+	return resumeThread(L, th, true)
 }
 
 func coWrap(L *LState) int {
